@@ -14,7 +14,8 @@ RULE = ("A case is (protocol version, capability profile: breeze-control | legac
         "changed since the previous apply + buzzer, values in the vendor encoding, or no B0 when nothing changed); "
         "read-back oracle after every refresh; at most one breeze mode at every observation. Distinct = distinct "
         "(profile, history); non-trivial = at least one property setter followed by an apply, or a refresh of a "
-        "non-default store.")
+        "non-default store."
+        " Later additions: lost acknowledgements, apply cancelled while reconnecting, unanswered property queries, refused writes (result 0x11), extended state reports (22-46 bytes), volunteered property records (also flagged as failed), a setter called between the two capability pages of a re-query, a bystander pair.")
 ASSUMPTIONS = [
     "vendor value encodings: 0x42 breeze-away 2/1, 0x43 breeze control 1..4, 0x18 breezeless 1/0, 0xE3 iECO set = "
     "[frame, number, switch, 10 x 0] / report = [number, switch, ...], 0x48 rate, 0x09/0x0A angle, 0x39 self clean 1, "
